@@ -18,6 +18,7 @@ import DateutilVerif.Proofs.RRuleStrOpts
 import DateutilVerif.Proofs.RRuleStrRule
 import DateutilVerif.Proofs.RRuleStrFold
 import DateutilVerif.Proofs.RRuleStrTzid
+import DateutilVerif.Proofs.RRuleStrDate
 
 namespace C13
 open RRuleStr
@@ -541,5 +542,25 @@ theorem dtstart_tzid_zone (parms : List (List Char)) (t : StrPy.Dict) (k : StrPy
   rw [h]; rfl
 
 example : Gen.rrsAttach none (some .fromText) = .ok (some .fromText) := (date_zone .fromText .fromText _).2.1
+
+/-! ## 12. the date texts of `str(rule)` are read back (C13 ∘ C02) -/
+
+/-- **`parser.parse` reads the DTSTART / UNTIL text of `str(rule)` back as the naive datetime it was printed from.**
+    `showDT (sixOf t)` — what `__str__` prints, `'%04d' % year + strftime('%m%dT%H%M%S')` — IS C02's compact template
+    `YYYYMMDDTHHMMSS` (`showDT_eq_renderCompact`, every valid datetime, years 1..9999 zero-padded), and C02's `parse_compact`
+    (the parser model, any character classifier / two-digit-year pivot / default / `ignoretz` / plain `tzinfos`) gives that
+    datetime with microsecond 0 and NO zone.  This discharges, on the models, the assumption `backArgs` / `backArgsNaive`
+    make about the two date values in `str_roundtrip_rule*` and `str_roundtrip_occurrences` (a rule's `dtstart` and `until`
+    have microsecond 0: C01's constructor). -/
+theorem date_text_read_back (cls : Char → PM.CClass) [PM.AsciiOK cls] (yf : Bool) (year century : Int) (o : PM.Opts)
+    (tznames : List PM.Token) (tzi : PM.TzInfos) (ho : PM.PlainOpts o tzi) (dflt : DT) (hdv : dflt.Valid)
+    (t : DT) (ht : t.Valid) :
+    PM.parse cls (PM.Info.default false yf year century) o tznames tzi dflt (showDT (sixOf t)) =
+      .ok { dt := { t with us := 0 }, tz := .naive, tokens := none } := by
+  rw [showDT_eq_renderCompact t ht]
+  exact PM.parse_compact cls yf year century o tznames tzi ho dflt hdv t ht .tHMS
+
+example : showDT (sixOf ⟨999, 1, 2, 3, 4, 5, 0⟩) = lit "09990102T030405" := by
+  rw [showDT_eq_renderCompact _ (by decide)]; decide
 
 end C13
